@@ -1,6 +1,7 @@
 ---------------------------- MODULE GenMFSLocks ----------------------------
 (* Phase G: schedules of MFSLocks printed as JSON, one behaviour per simulated run.  Every step
-   carries the model state the harness compares after executing that step in the real code:
+   carries the instruction the thread executes (compared with the lock call / access the real thread is about
+   to make) and the model state the harness compares after executing that step in the real code:
    position (op index, pc, run/wait) of every thread, the locks that have an announced or
    holding writer (probed with TryRLock/TryLock), File.node of both files, and the result of a
    Read.  A run ends when all sessions are finished ("complete"), when nothing can move
@@ -13,6 +14,7 @@ gvars == <<vars, hist>>
 
 Rec(t) == LET i == prog'[t][pc[t]] IN
           [t |-> t,
+           ins |-> <<i[1], i[2], i[3]>>,
            pos |-> [u \in T |-> <<opi'[u], pc'[u], st'[u]>>],
            wown |-> {x \in LockIds : wown'[x] # 0},
            node |-> node',
